@@ -4,8 +4,8 @@ Everything here talks to the real pymtl3 objects only through the public getters
 property (get_all_components, get_all_object_filter, get_all_value_nets, get_all_method_nets,
 get_signal_adjacency_dict, get_all_update_blocks, get_all_upblk_metadata, get_all_update_ff,
 get_all_update_once, get_all_explicit_constraints, get_update_block_host_component,
-get_connect_order) and, where no getter exists, the `_dsl.all_*` containers of the anchors
-(all_signals, all_method_ports, all_named_objects, all_upblk_hostobj).
+get_connect_order); the signal and method-port sets are get_all_object_filter(isinstance ...).  The
+only container read directly is `_dsl.all_upblk_hostobj` (its getter answers one block at a time).
 
 Projection = names only ("up to object identity"), but identity-aware in one respect: a name is
 only reported plain when walking that name from the top reaches this very object.  An object whose
@@ -36,7 +36,8 @@ FIELD_WORD = {
     "mc": "M-constraint", "consts": "adjacency-const", "funcs": "function-name", "sinfo": "signal-info",
     "minfo": "method-port-info", "phs": "placeholder-set",
 }
-KIND_FIELDS = ("named", "calls", "adj", "conn")
+KIND_FIELDS = ("named", "calls", "adj", "conn", "sigs", "rdu", "wru")
+_SLICE = re.compile(r"\[\d+:\d+\]$")
 # _dsl container  ->  projected field (used to fold a reachability finding into the metadata finding
 # of the same container)
 CONTAINER_FIELD = {
@@ -249,14 +250,17 @@ class Projector:
         P = {}
         comps = top.get_all_components()
         P["comps"] = [nm(c) for c in comps]
-        P["sigs"] = [nm(x) for x in ds.all_signals]
-        P["mports"] = [nm(x) for x in ds.all_method_ports]
-        P["named"] = [nm(x) for x in top.get_all_object_filter(lambda x: True)]
+        named = top.get_all_object_filter(lambda x: True)
+        sigs = [x for x in named if isinstance(x, D.Signal)]
+        mports = [x for x in named if isinstance(x, D.MethodPort)]
+        P["sigs"] = [nm(x) for x in sigs]
+        P["mports"] = [nm(x) for x in mports]
+        P["named"] = [nm(x) for x in named]
         adj = top.get_signal_adjacency_dict()
         P["consts"] = [nm(k) for k in adj if isinstance(k, D.Const) and adj[k]]
         P["funcs"] = [nm(f) for c in comps for f in c._dsl.name_func.values()]
         sinfo = []
-        for x in ds.all_signals:
+        for x in sigs:
             kind = "#in" if isinstance(x, D.InPort) else "#out" if isinstance(x, D.OutPort) else "#wire"
             par = getattr(x._dsl, "parent_obj", None)
             sl = x._dsl.slice
@@ -264,7 +268,7 @@ class Projector:
                           "#%d:%d" % (sl.start, sl.stop) if sl is not None else "#-"])
         P["sinfo"] = sinfo
         minfo = []
-        for x in ds.all_method_ports:
+        for x in mports:
             if isinstance(x, D.CallerPort):
                 role = "#caller"
             else:
@@ -405,6 +409,12 @@ def classify(stale, missing, dup, kinds_new, kinds_fresh):
     def kind_of(f, e, kinds):
         if f not in KIND_FIELDS:
             return None
+        if f == "sigs":          # a slice object exists only once something mentions it
+            return "slice" if _SLICE.search(e[0]) else None
+        if f in ("rdu", "wru"):  # who declared the constraint: the signal's own component or one above it
+            host, sig = _strip(e[0]).split("::")[0], _strip(e[2])
+            own = sig.startswith(host + ".") and "." not in sig[len(host) + 1:]
+            return None if own else "ancestor-block"
         if f == "named":
             x = e[0]
         elif f == "calls":
@@ -765,14 +775,21 @@ def cfg_key(cfg):
 
 
 def _where(exc):
-    """innermost pymtl3 frame of an exception: 'File.function'"""
+    """pymtl3 call site of an exception: 'File.function' of the innermost pymtl3 frame, preceded by the
+    first frame inside a pass when there is one ('GenDAGPass._process_value_constraints>NamedObject.get_parent_object')"""
+    import os
     import traceback
     tb = traceback.extract_tb(exc.__traceback__)
-    for fr in reversed(tb):
+    inner = outer = None
+    for fr in tb:
         if "/pymtl3/" in fr.filename:
-            import os
-            return "%s.%s" % (os.path.basename(fr.filename)[:-3], fr.name)
-    return "?"
+            w = "%s.%s" % (os.path.basename(fr.filename)[:-3], fr.name)
+            inner = w
+            if outer is None and "/pymtl3/passes/" in fr.filename and fr.name != "__call__":
+                outer = w
+    if inner is None:
+        return "?"
+    return inner if outer in (None, inner) else "%s>%s" % (outer, inner)
 
 
 def _exc_info(e):
